@@ -151,6 +151,7 @@ const (
 	Opcode_Label
 	Opcode_Into_Range
 	Opcode_Duplicate
+	Opcode_Detach // replaces the place on top of the stack (an element, a field) by the value it holds now
 	Opcode_AddMempointer
 	Opcode_IteratorAdvance
 	Opcode_IntoIter
@@ -258,6 +259,8 @@ func (self Opcode) String() string {
 		return "Into_Range"
 	case Opcode_Duplicate:
 		return "Duplicate"
+	case Opcode_Detach:
+		return "Detach"
 	case Opcode_AddMempointer:
 		return "AddMempointer"
 	case Opcode_IteratorAdvance:
